@@ -94,7 +94,15 @@ func (p *poller) addConn(c *Conn) error {
 	p.g.wgConn.Add(1)
 	p.g.mux.Unlock()
 	defer p.g.wgConn.Done()
+	// A Conn that was closed before it had a poller (NBConn, Close, AddConn) has
+	// produced no close notification and never will: it must not be opened.
+	c.mux.Lock()
+	if c.closed {
+		c.mux.Unlock()
+		return net.ErrClosed
+	}
 	c.p = p
+	c.mux.Unlock()
 	if c.typ != ConnTypeUDPServer {
 		p.g.onOpen(c)
 	} else {
